@@ -56,7 +56,7 @@ type Step struct {
 	Absent   []int      `json:"absent,omitempty"`   // indexes into the sorted signer set
 	Evidence [][3]int64 `json:"evidence,omitempty"` // (validator index in signer set, height offset back, age seconds)
 	Proposer int        `json:"proposer,omitempty"`
-	Shuffle  int64      `json:"shuffle,omitempty"` // non-zero: mempool order permuted by this value
+	Shuffle  int64      `json:"shuffle,omitempty"`  // non-zero: mempool order permuted by this value
 	CrashAt  int        `json:"crash_at,omitempty"` // non-zero: the process dies after (CrashAt-1) mod (n+1) of the n database writes of this block's Commit
 	Interf   []Interf   `json:"interf,omitempty"`
 	// ---- off-chain / faults
